@@ -19,7 +19,7 @@ pub fn meta(tier: Tier) -> Meta {
         rule: format!(
             "relL2(output, exact DFT) <= B = 16*eps*log2(2n), exactly the stated bound (factor 1). Exact DFT = independent reference in f64 (for f32 results) or double-double (for f64 results). \
              (a) whole impulse basis for n <= {nb}; (b) every n in 2..={dense} x 4 planners x f32/f64 x 2 directions x 4 entry points with three dense random distributions (sign-symmetric uniform, positive uniform, sum of uniforms) and one rotating structured family (constant, on-grid tone, off-grid tone, alternating signs, sparse spikes, wide dynamic range, conjugate-symmetric, ramp, large/small global scale, and a dense vector times an exact power of two at the two ENDS of the normal range: 2^-60..2^-80 (f32) / 2^-300..2^-900 (f64), and 2^(MAX_EXP-24-1.5*log2 n), judged after exact rescaling); \
-             (c) {cases} proptest-drawn cases over length families up to {nmax} weighted towards Bluestein primes, Rader primes, Cunningham primes, prime powers and long radix chains (that is where eps*n or eps*sqrt(n) growth separates from the bound), all 18 input families, 1-3 chunks, plus a third as many cases with the extreme-scale inputs; thorough adds primes near 10^6. \
+             (c) {cases} proptest-drawn cases over length families up to {nmax} weighted towards Bluestein primes, Rader primes, Cunningham primes, prime powers and long radix chains (that is where eps*n or eps*sqrt(n) growth separates from the bound), all 18 input families, 1-3 chunks, plus a third as many cases with the extreme-scale inputs; (d) mean-dominated inputs (generic constant / positive uniform) through every entry point on every Rader prime above 1024 up to 2^16 (quick) / 2^19 (thorough), an even spread of 150/600 Bluestein primes and the landmark lengths; thorough adds primes near 10^6. \
              The worst observed ratio error/B per planner and type is reported. Non-trivial: n >= 2 and a non-zero input.",
         ),
         exhaustive: false,
@@ -110,6 +110,46 @@ pub fn worker(ctx: &mut Ctx) {
             .with_input(InputSpec::fam(["xscale_tiny", "xscale_huge"][which], seed))
     });
     ctx.run_random("structured-extreme-scale", cases / 3 / ctx.nshards as u32, strat2);
+    // mean-dominated inputs (generic constant, positive uniform, constant + small noise) on large primes and landmark lengths,
+    // every entry point: bin 0 is a sum of n like-signed terms, so a running sum instead of a tree shows as eps*n only here
+    {
+        let bound = ctx.tier.pick(1usize << 16, 1 << 19);
+        let fams = Families::new(bound);
+        let mut lens: Vec<usize> = vec![];
+        for fname in ["prime_rader_23smooth", "prime_rader_11smooth"] {
+            lens.extend(fams.fams.iter().find(|f| f.0 == fname).map(|f| f.1.clone()).unwrap_or_default().into_iter().filter(|&q| q > 1024));
+        }
+        // Bluestein primes: an even spread
+        let blue: Vec<usize> = fams.fams.iter().find(|f| f.0 == "prime_bluestein").map(|f| f.1.clone()).unwrap_or_default().into_iter().filter(|&q| q > 1024).collect();
+        let step = (blue.len() / ctx.tier.pick(150usize, 600)).max(1);
+        lens.extend(blue.iter().step_by(step));
+        lens.extend(crate::gen::landmark_lengths(ctx.tier.pick(16u32, 19), false).into_iter().filter(|&n| n <= bound));
+        lens.sort();
+        lens.dedup();
+        for (i, &n) in lens.iter().enumerate().rev() {
+            if !ctx.mine() {
+                continue;
+            }
+            // thin the quick tier: every prime family member above 2^13, every third below
+            if ctx.tier == Tier::Quick && n < 1 << 13 && i % 3 != 0 {
+                continue;
+            }
+            let fam = ["const", "positive", "const"][i % 3];
+            let ty = if n > 1 << 15 { Ty::F32 } else { TYS[i % 2] };
+            for (pi, planner) in [Planner::Scalar, Planner::Sse, Planner::Avx].iter().enumerate() {
+                for entry in ENTRIES {
+                    // all four entry points on the non-AVX planners (they share the portable algorithms), two on AVX
+                    if *planner == Planner::Avx && (entry as usize + i) % 2 == 0 {
+                        continue;
+                    }
+                    ctx.exec(&Case::new("C02", "numeric", *planner, ty, DIRS[(i + pi) % 2], n).with_entry(entry).with_input(InputSpec::fam(fam, n as u64 * 7 + 3)));
+                }
+            }
+            if ctx.done() {
+                return;
+            }
+        }
+    }
     if ctx.tier == Tier::Thorough {
         // primes near 10^6 (Rader and Bluestein), f32 and f64
         let big = [999_983usize, 1_000_003, 1_000_033, 786_433, 995_329, 1_048_573];
